@@ -172,7 +172,7 @@ func TestVerif_C05_stale_rep_pos(t *testing.T) {
 		c05one(r, nil, []rune(d["text"].(string)), [][]rune{[]rune(d["pattern"].(string))})
 		return
 	}
-	maxText := r.Pick(4, 5)
+	maxText := r.Pick(5, 6)
 	pats := kit.AllStrings([]rune{'a', 'b', 'A', 'á', ' '}, 1, 3)
 	var slabs []*util.Slab
 	for mode := 0; mode < 4; mode++ {
